@@ -141,7 +141,7 @@ func (r *Report) Finish(w *World) int {
 	sort.Strings(abortedFns)
 	exit := 0
 	violations := 0
-	replayDir := filepath.Join(VerifDir, "replays", r.Prop)
+	replayDir := filepath.Join(OutDir, "replays", r.Prop)
 	var lines []string
 	if r.Broken != "" {
 		fmt.Printf("BROKEN property=%s %s\n", r.Prop, r.Broken)
@@ -245,9 +245,9 @@ func (r *Report) Finish(w *World) int {
 		"wall_s":      wall,
 		"violations":  violations,
 	}
-	os.MkdirAll(filepath.Join(VerifDir, "evidence"), 0o755)
+	os.MkdirAll(filepath.Join(OutDir, "evidence"), 0o755)
 	data, _ := json.MarshalIndent(ev, "", " ")
-	os.WriteFile(filepath.Join(VerifDir, "evidence", r.Prop+".json"), data, 0o644)
+	os.WriteFile(filepath.Join(OutDir, "evidence", r.Prop+".json"), data, 0o644)
 	fmt.Printf("%s tier=%s functions=%d obligations=%d discharged=%d covers=%d/%d known=%d violations=%d wall=%.1fs solver=%.1fs\n",
 		r.Prop, r.Tier, len(r.Functions), total, discharged, coversOK, covers, len(knownHit), violations, wall, float64(atomic.LoadInt64(&smt.SolverTime))/1e9)
 	return exit
